@@ -15,6 +15,7 @@ func asaSpaces(ctx *core.Ctx) []*space {
 		asaSpellSpace(),
 		asaVPNSpace(),
 		asaPeerSpace(),
+		asaPeer6Space(),
 		asaWebvpnSpace(),
 		asaSharedGroupSpace(),
 		asaEditSpace(),
